@@ -16,6 +16,7 @@ CHECKS = {
     "C11": checks_wrap.check_c11,
     "C12": checks_wrap.check_c12,
     "C13": checks_os.check_c13,
+    "C14": checks_ns.check_c14,
     "C15": checks_idm.check_c15,
     "C16": checks_copy.check_c16,
     "C17": checks_os.check_c17,
